@@ -4814,8 +4814,10 @@ impl<'a> YamlString<'a> {
         match self {
             YamlString::DoubleQuoted { text, start } => {
                 let end = Self::find_double_quote_end(text, *start);
-                let bytes = &text[*start + 1..end - 1]; // Strip quotes
-                                                        // Need decoding if contains escapes or newlines (multiline folding)
+                // Strip quotes. An unterminated scalar whose opening quote is the last
+                // byte has `end == start + 1`; never let the range run backwards.
+                let bytes = &text[*start + 1..(end - 1).max(*start + 1)];
+                // Need decoding if contains escapes or newlines (multiline folding)
                 if !bytes.contains(&b'\\') && !bytes.contains(&b'\n') && !bytes.contains(&b'\r') {
                     let s =
                         core::str::from_utf8(bytes).map_err(|_| YamlStringError::InvalidUtf8)?;
@@ -4826,8 +4828,9 @@ impl<'a> YamlString<'a> {
             }
             YamlString::SingleQuoted { text, start } => {
                 let end = Self::find_single_quote_end(text, *start);
-                let bytes = &text[*start + 1..end - 1]; // Strip quotes
-                                                        // Need decoding if contains escaped quotes or newlines (multiline folding)
+                // Strip quotes (same guard as the double-quoted arm).
+                let bytes = &text[*start + 1..(end - 1).max(*start + 1)];
+                // Need decoding if contains escaped quotes or newlines (multiline folding)
                 if !bytes.contains(&b'\'') && !bytes.contains(&b'\n') && !bytes.contains(&b'\r') {
                     let s =
                         core::str::from_utf8(bytes).map_err(|_| YamlStringError::InvalidUtf8)?;
